@@ -119,11 +119,19 @@ def run(ctx, rep):
             excl = ctx.rng.random() < 0.3
             generator.get_policies_dict = lambda ns, defs=defs: {'ns': defs}
             out = os.path.join(tmp, 's.yaml')
-            with warnings.catch_warnings():
-                warnings.simplefilter('ignore')
-                generator._generate_sample(['ns'], output_file=out, exclude_deprecated=excl)
-                outj = os.path.join(tmp, 's.json')
-                generator._generate_sample(['ns'], output_file=outj, output_format='json')
+            outj = os.path.join(tmp, 's.json')
+            try:
+                with warnings.catch_warnings():
+                    warnings.simplefilter('ignore')
+                    generator._generate_sample(['ns'], output_file=out, exclude_deprecated=excl)
+                    generator._generate_sample(['ns'], output_file=outj, output_format='json')
+            except Exception as ex:       # every constructible default must be stated: generation may not fail
+                rep.fail('c17crash:%r' % [(s['name'], s['check_str']) for s in specs],
+                         'generating the sample for %r (exclude_deprecated=%s) raises %s: %s'
+                         % ([(s['name'], s['check_str'], s['removal'], s['deprecated']) for s in specs], excl,
+                            type(ex).__name__, ex), {'defaults': specs, 'exclude_deprecated': excl})
+                rep.case(key='crash%d' % case, nontrivial=True)
+                continue
             with open(out, newline='') as fh:
                 ytext = fh.read()
             with open(outj, newline='') as fh:
